@@ -418,7 +418,8 @@ def check(prop, tier, only=None, jobs=None):
             inconclusive.append((h, r, f"counterexample did not replay natively ({verdict})"))
         shutil.rmtree(scratch, ignore_errors=True)
 
-    write_evidence(prop, tier, seed, allh, results, violations, inconclusive, known_hits, time.time() - t0)
+    write_evidence(prop, tier, seed, allh, results, violations, inconclusive, known_hits, time.time() - t0,
+                   partial=bool(only))
 
     for k in known_hits:
         print(f"KNOWN-FINDING: property={prop} {k['what']}")
@@ -437,7 +438,7 @@ def check(prop, tier, only=None, jobs=None):
     return 0
 
 
-def write_evidence(prop, tier, seed, allh, results, violations, inconclusive, known_hits, wall):
+def write_evidence(prop, tier, seed, allh, results, violations, inconclusive, known_hits, wall, partial=False):
     EVID.mkdir(exist_ok=True)
     proved = [(h, r) for h, r in results if r["status"] in ("PROVED", "KNOWN")]
     nontriv = [(h, r) for h, r in proved if r["checks"] > 0 and (r["covers"] is None or r["covers"][0] == r["covers"][1])]
@@ -497,7 +498,8 @@ def write_evidence(prop, tier, seed, allh, results, violations, inconclusive, kn
         "wall_s": round(wall, 1),
         "violations": len(violations),
     }
-    (EVID / f"{prop}.json").write_text(json.dumps(ev, indent=1))
+    dest = (WORK / f"evidence-partial-{prop}.json") if partial else (EVID / f"{prop}.json")
+    dest.write_text(json.dumps(ev, indent=1))
 
 
 def replay(prop, path):
